@@ -357,13 +357,15 @@ class HdlcFrameReader(MeterReaderBase[HdlcFrame]):
             frame_complete = self._handle_flag_sequence()
         elif self._frame is not None:  # not in hunt mode
             self._append_to_frame(current)
-            if len(self._frame) > HdlcFrame.MAX_FRAME_LENGTH:
-                _LOGGER.debug(
-                    "Max frame length reached. Discard frame: %s",
-                    self._raw_frame_data.hex(),
-                )
-                self._goto_hunt_mode()
-                frame_complete = False
+
+        # flag sequences inside a frame are appended as data when not using octet stuffing
+        if self._frame is not None and len(self._frame) > HdlcFrame.MAX_FRAME_LENGTH:
+            _LOGGER.debug(
+                "Max frame length reached. Discard frame: %s",
+                self._raw_frame_data.hex(),
+            )
+            self._goto_hunt_mode()
+            frame_complete = False
 
         return frame_complete
 
@@ -379,7 +381,7 @@ class HdlcFrameReader(MeterReaderBase[HdlcFrame]):
 
         elif len(self._frame) == 0:
             # Found new flag sequence. Two is normal ( end + start), one is allowed, and many possible if time fill.
-            pass
+            self._raw_frame_data.clear()
 
         elif self._frame.header.header_check_sequence is None:
             # Frames which are too short are silently discarded, and not counted as a FCS error.
